@@ -587,8 +587,8 @@ def run(run):
     replay_known(run)
     known = {e["class"]: e for e in findings() if e.get("status") == "open"}
 
-    n_src = 4500 if thorough else 360
-    n_ast = 900 if thorough else 120
+    n_src = 4500 if thorough else 260
+    n_ast = 900 if thorough else 100
     cases, meta = [], []
     hist = {"parsed": 0, "rejected": 0, "ast_first": 0, "unsupported": 0, "prop_fail_known": 0, "ops": {}, "classes": {}, "boundaries": {}}
     failures = []      # genuine, not known
@@ -703,7 +703,8 @@ def run(run):
         run.violation({"kind": "printer differs from model and the round trip fails", "witness": bad_with_input[0]})
     elif disagreements or codec_bad or fresh_bad:
         first = (disagreements or codec_bad or fresh_bad)[0]
-        run.violation({"kind": "correspondence broken, round trip holds on the searched inputs", "first": first,
+        run.violation({"kind": ("correspondence broken; failing inputs are reported by the other VIOLATION of this run" if failures else
+                                "correspondence broken, round trip holds on the searched inputs"), "first": first,
                        "count": len(disagreements) + len(codec_bad) + len(fresh_bad),
                        "obligation": "correspondence Unparse.v <-> isla.language.ISLaUnparser / z3_helpers.smt_expr_to_str / fresh_variable"},
                       found_input=False)
